@@ -30,6 +30,23 @@ func SpreadPorts() {
 	atomic.AddUint32(&portNext, uint32((os.Getpid()*37)%1400))
 }
 
+// Abort closes a connection with an RST (SO_LINGER 0). Harness sockets that dialed and close first
+// would otherwise sit in TIME_WAIT for a minute each; a few thousand cases exhaust the machine's
+// ephemeral ports ("bind: address already in use" even for port 0). Use it for clean-up, never where
+// an orderly close is part of what a case observes.
+func Abort(c net.Conn) {
+	if c != nil {
+		rstClose(c)
+	}
+}
+
+// KillAndClose resets every connection of a scripted upstream and stops it (so that the proxy's
+// client connections towards it do not end in TIME_WAIT either).
+func KillAndClose(u *Upstream) {
+	u.KillConns(true)
+	u.Close()
+}
+
 // RawServer accepts TCP connections and hands each to Handler in its own goroutine.
 type RawServer struct {
 	Addr    string
@@ -104,7 +121,7 @@ func (s *RawServer) Close() {
 	_ = s.ln.Close()
 	s.mu.Lock()
 	for _, c := range s.conns {
-		_ = c.Close()
+		rstClose(c)
 	}
 	s.mu.Unlock()
 	s.wg.Wait()
